@@ -12,6 +12,11 @@ void ws_reset(void);
 void ws_set_parent_env(const wchar_t *block, size_t units);
 // Fail the n-th (0-based) allocation made by the Windows sources; -1 = never.
 void ws_fail_alloc(int n);
+// Fail the n-th (0-based) call of one Win32 function with the given last-error
+// code; api: 0 SetHandleInformation, 1 InitializeProcThreadAttributeList (real
+// initialisation call), 2 UpdateProcThreadAttribute, 3 CreateProcessW,
+// 4 MultiByteToWideChar, 5 WaitForSingleObject, 6 GetExitCodeProcess. -1 = none.
+void ws_fail_api(int api, int nth, uint32_t error);
 // Exit code that GetExitCodeProcess reports.
 void ws_set_exit_code(uint32_t code);
 
@@ -34,6 +39,8 @@ struct ws_capture {
   int freed_env_strings;     // FreeEnvironmentStringsW calls with the parent block
   size_t live_allocs;        // blocks allocated by the Windows sources and not freed
   size_t nfreed;             // freed blocks log
+  int attr_lists_live;       // initialised and not deleted attribute lists
+  int handles_closed;        // CloseHandle calls
 };
 struct ws_capture ws_get(void);
 // i-th freed block: size requested and a copy of its content at free time.
